@@ -245,6 +245,21 @@ impl<'u> Sem<'u> {
                 let leaves = vec![s; self.leaf_count(to)?];
                 self.fill(to, &mut leaves.into_iter())
             }
+            // HLSL: an aggregate cast to a scalar gives the first leaf ((int)arr)
+            (Ty::Struct(_), Ty::Num(k, 1)) | (Ty::Array(..), Ty::Num(k, 1)) if explicit && self.d == Dialect::Hlsl => {
+                fn first_leaf(v: &V) -> Option<V> {
+                    match v {
+                        V::Array(items) | V::Struct(items) => items.iter().find_map(first_leaf),
+                        V::Vec(items) => items.first().cloned(),
+                        V::Void => None,
+                        other => Some(other.clone()),
+                    }
+                }
+                match first_leaf(v) {
+                    Some(l) => Ok(conv(&l, *k, 1)),
+                    None => bad("cast of an aggregate without elements to a scalar"),
+                }
+            }
             (Ty::Enum(a), Ty::Enum(b)) if a == b => Ok(v.clone()),
             (Ty::Struct(a), Ty::Struct(b)) if a == b => Ok(v.clone()),
             (Ty::Array(a, n), Ty::Array(b, m)) if a == b && n == m => Ok(v.clone()),
@@ -281,6 +296,10 @@ impl<'u> Sem<'u> {
     // ---- names
 
     fn lookup(&self, name: &str) -> Option<Place> {
+        // ::name : the root scope only
+        if let Some(root) = name.strip_prefix("::") {
+            return self.globals.get(root).cloned();
+        }
         for s in self.scopes.iter().rev() {
             if let Some(p) = s.get(name) {
                 return Some(p.clone());
@@ -314,13 +333,15 @@ impl<'u> Sem<'u> {
     }
 
     fn enum_value(&mut self, name: &str) -> R<Option<(V, Ty)>> {
+        let name = name.strip_prefix("::").unwrap_or(name);
         let (scope, value) = match name.rsplit_once("::") {
             Some((s, v)) => (Some(s), v),
             None => (None, name),
         };
         for (ei, e) in self.u.enums.iter().enumerate() {
             if let Some(s) = scope {
-                if s != e.name {
+                // E::A, or N::A for the unscoped value of an enum declared in N
+                if s != e.name && namespace_of(&e.name).join("::") != s {
                     continue;
                 }
             }
@@ -1104,9 +1125,10 @@ impl<'u> Sem<'u> {
                 }
             }
         }
-        // unqualified lookup goes outward from the namespace of the calling function
+        // unqualified lookup goes outward from the namespace of the calling function; ::name starts at the root scope
         let mut cands: Vec<&'u FuncD> = Vec::new();
-        let mut prefix: Vec<String> = self.ns_stack.last().cloned().unwrap_or_default();
+        let mut prefix: Vec<String> = if name.starts_with("::") { Vec::new() } else { self.ns_stack.last().cloned().unwrap_or_default() };
+        let name = name.strip_prefix("::").unwrap_or(name);
         loop {
             let full = if prefix.is_empty() { name.to_string() } else { format!("{}::{}", prefix.join("::"), name) };
             cands = self.u.funcs.iter().filter(|f| f.name == full && f.has_body).collect();
@@ -1306,7 +1328,11 @@ impl<'u> Sem<'u> {
         } else {
             self.depth += 1;
             self.ret_stack.push(ret_ty.clone());
-            self.ns_stack.push(namespace_of(&f.name));
+            // a method is looked up from the namespace of its struct
+            self.ns_stack.push(match &this {
+                Some((_, si)) => namespace_of(&self.u.structs[*si].name),
+                None => namespace_of(&f.name),
+            });
             self.this_stack.push(this.clone());
             let mut r = self.block(&f.body);
             if r.is_ok() {
